@@ -373,7 +373,9 @@ func genNameCase(rng *rand.Rand) *nameCase {
 	}
 	for k := 1 + rng.Intn(3); k > 0; k-- {
 		c.ViaCtx = rng.Intn(3) == 0
-		c.Lookups = append(c.Lookups, []string{"n1", "n2", "zz", "", "N1", "home", "HOME", "Home", "\u212aelvin", "kelvin", "Kelvin", "home ", " home", "hom", "homee", "users.show", "users_show", "USERS.SHOW", "n1\x00"}[rng.Intn(19)])
+		c.Lookups = append(c.Lookups, []string{"n1", "n2", "zz", "", "N1", "home", "HOME", "Home", "\u212aelvin", "kelvin", "Kelvin", "home ", " home", "hom", "homee", "users.show", "users_show", "USERS.SHOW", "n1\x00",
+			// things that identify a route in some other way are not names: its text, its path, its method and text, its index
+			"/a", "/e", "/b/{x}", "/c/?d", "/c", "/combo0", "a", "e", "GET /a", "GET:/a", "0", "1", "/__lookup"}[rng.Intn(32)])
 	}
 	return c
 }
